@@ -506,3 +506,79 @@ theorem pyEq_eq_spec (h : HashFns) (hl : h.Lawful) (a b : T) : pyEq h a b = eqS 
 
 theorem pyHash_eq_spec (h : HashFns) (hl : h.Lawful) (a : T) : pyHash h a = hashS h a :=
   (sem_spec h hl _).2 a (Nat.le_refl _)
+
+/-! ## objects with cached hashes: constructors, reducers -/
+
+mutual
+  theorem erase_build (h : HashFns) : (t : T) → erase (build h t) = t
+    | .node l ks => by
+      rw [build, construct, erase, eraseList_buildList h ks]
+  theorem eraseList_buildList (h : HashFns) : (ks : List T) → eraseList (buildList h ks) = ks
+    | [] => rfl
+    | k :: ks => by rw [buildList, eraseList, erase_build h k, eraseList_buildList h ks]
+end
+
+mutual
+  theorem pickle_eq_erase : (o : Obj) → pickle o = erase o
+    | .node l ks => by rw [pickle, erase, pickleList_eq_eraseList ks]
+  theorem pickleList_eq_eraseList : (ks : List Obj) → pickleList ks = eraseList ks
+    | [] => rfl
+    | k :: ks => by rw [pickleList, eraseList, pickle_eq_erase k, pickleList_eq_eraseList ks]
+end
+
+theorem relabel_wf (l : Lab) (hw : l.wf = true) : relabel l = l := by
+  cases l <;> simp [relabel, constLab, Lab.wf] at hw ⊢
+  rename_i hv v r
+  cases hv <;> cases hn : v.isNone <;> simp_all
+
+mutual
+  theorem unpickle_eq_build (h : HashFns) : (t : T) → wf t = true → unpickle h t = build h t
+    | .node l ks => by
+      intro hw
+      simp only [wf, Bool.and_eq_true] at hw
+      rw [unpickle, build, relabel_wf l hw.1, unpickleList_eq_buildList h ks hw.2]
+  theorem unpickleList_eq_buildList (h : HashFns) : (ks : List T) → wfList ks = true →
+      unpickleList h ks = buildList h ks
+    | [] => fun _ => rfl
+    | k :: ks => by
+      intro hw
+      simp only [wfList, Bool.and_eq_true] at hw
+      rw [unpickleList, buildList, unpickle_eq_build h k hw.1, unpickleList_eq_buildList h ks hw.2]
+end
+
+theorem buildList_eq_map (h : HashFns) (ks : List T) : buildList h ks = ks.map (build h) := by
+  induction ks with
+  | nil => rfl
+  | cons k ks ih => simp [buildList, ih]
+
+/-- the hash a constructor caches is the hash of the object it builds -/
+theorem cached_build (h : HashFns) (hl : h.Lawful) (t : T) : cached (build h t) = pyHash h t := by
+  rw [pyHash_eq_spec h hl]
+  induction t using tree_ind with
+  | h l ks ih =>
+    rw [build, construct, cached, hashS_node, buildList_eq_map]
+    have e0 : (ks.map (build h)).map (fun k => (erase k, cached k)) = ks.map (fun k => (k, hashS h k)) := by
+      rw [List.map_map]
+      apply List.map_congr_left
+      intro k hk
+      simp only [Function.comp, erase_build, ih k hk]
+    simp only [e0, List.map_map]
+    have e1 : ((fun x : T × Int => x.2) ∘ fun k => (k, hashS h k)) = hashS h := rfl
+    rw [e1]
+    congr 1
+    by_cases ht : l.key = .tsum
+    · rw [if_pos ht, if_pos ht]
+      congr 1
+      have e2 : mkSet (keyEq (fun (a b : T × Int) => pyEq h a.1 b.1) (·.2)) (ks.map (fun k => (k, hashS h k)))
+          = mkSet (fun (e t : T × Int) => eqS e.1 t.1) (ks.map (fun k => (k, hashS h k))) := by
+        apply mkSet_congr _ _ (fun p : T × Int => p.2 = hashS h p.1)
+        · intro x y hx hy
+          simp only [keyEq, pyEq_eq_spec h hl, hx, hy]
+          exact keyEq_spec h hl x.1 y.1
+        · intro x hx
+          obtain ⟨k, _, rfl⟩ := List.mem_map.mp hx
+          rfl
+      rw [e2]
+      have := mkSet_pairs eqS (hashS h) ks
+      rw [← this]
+    · rw [if_neg ht, if_neg ht]
